@@ -46,3 +46,47 @@ for s in spaces:
 L += ["end Prism.C01", ""]
 open(os.path.join(root, "All.lean"), "w").write("\n".join(L))
 print("wrote", len(imports) + 1, "files")
+
+
+def gen_family(prop, imp, fam, pred, nfiles=16, per=16, extra_all=""):
+    """16 files x 16 theorems `pred k = true` by decide +kernel, plus per-file and overall assembly."""
+    root2 = os.path.join(os.path.dirname(os.path.abspath(__file__)), "..", "lean", "Prism", "Proofs", prop)
+    os.makedirs(root2, exist_ok=True)
+    imports = []
+    for j in range(nfiles):
+        name = f"K{fam.capitalize()}{j}"
+        imports.append(f"import Prism.Proofs.{prop}.{name}")
+        L = [f"import {imp}", "", "/-! Kernel-checked chunks (generated boiler-plate, see lib/gen_static.py). -/", f"namespace Prism.{prop}", ""]
+        for i in range(per):
+            k = per * j + i
+            L.append(f"theorem {fam}_k{k} : {pred} {k} = true := by decide +kernel")
+        L.append("")
+        L.append(f"theorem {fam}_file{j} : ∀ k, {per*j} ≤ k → k < {per*j+per} → {pred} k = true := by")
+        L.append("  intro k h1 h2")
+        L.append("  have h : " + " ∨ ".join(f"k = {per*j+i}" for i in range(per)) + " := by omega")
+        L.append("  rcases h with " + " | ".join(["rfl"] * per))
+        for i in range(per):
+            L.append(f"  · exact {fam}_k{per*j+i}")
+        L += ["", f"end Prism.{prop}", ""]
+        open(os.path.join(root2, name + ".lean"), "w").write("\n".join(L))
+    L = imports + ["", f"namespace Prism.{prop}", ""]
+    L.append(f"theorem {fam}_chunks : ∀ k, k < {nfiles*per} → {pred} k = true := by")
+    L.append("  intro k hk")
+    L.append("  have h : " + " ∨ ".join(f"({per*j} ≤ k ∧ k < {per*j+per})" for j in range(nfiles)) + " := by omega")
+    L.append("  rcases h with " + " | ".join(["h"] * nfiles))
+    for j in range(nfiles):
+        L.append(f"  · exact {fam}_file{j} k h.1 h.2")
+    L.append("")
+    if extra_all:
+        L.append(extra_all)
+    L += [f"end Prism.{prop}", ""]
+    open(os.path.join(root2, f"All{fam.capitalize()}.lean"), "w").write("\n".join(L))
+
+gen_family("C14", "Prism.Check.C14", "alpha", "alphaChunk16",
+           extra_all="theorem alpha8 : alphaAll8 = true := by decide +kernel\n")
+print("wrote C14 alpha family")
+
+for sp in ["srgb", "adobe", "prophoto", "p3"]:
+    gen_family("C02", "Prism.Check.C02", "enc" + sp, f"enc16ChunkOk .{sp}",
+               extra_all=f"theorem enc{sp}_8 : enc8TableOk .{sp} = true := by decide +kernel\ntheorem enc{sp}_ends : encEndpointsOk .{sp} = true := by decide +kernel\n")
+print("wrote C02 families")
